@@ -148,33 +148,39 @@ class RangeNode(OperandNode):
         addr = self.full_address(context)
 
         if addr in context.ranges:
-            empty_row = 0
-            empty_col = 0
-            range_cells = []
-            for range_row in context.ranges[addr].cells:
-                row_cells = []
-                for col_addr in range_row:
-                    cell = context.eval_cell(col_addr)
-                    if cell.value == '' or cell.value is None:
-                        empty_col += 1
-                        if empty_col > MAX_EMPTY:
-                            break
-                    else:
-                        empty_col = 0
-                    row_cells.append(cell)
-                if not row_cells:
-                    empty_row += 1
-                    if empty_row > MAX_EMPTY:
-                        break
-                else:
-                    empty_row = 0
-                range_cells.append(row_cells)
+            rows = context.ranges[addr].cells
+
+            def used(cell_addr):
+                cell = context.cells.get(cell_addr)
+                return cell is not None and (
+                    cell.formula is not None
+                    or cell.value not in ('', None))
+
+            # Whole-column and whole-row references span the entire sheet.
+            # They are cut after the last row and column that hold anything
+            # - never at a gap of empty cells in between.
+            n_rows = _extent([any(map(used, row)) for row in rows])
+            n_cols = _extent([
+                any(used(row[idx]) for row in rows[:n_rows])
+                for idx in range(len(rows[0]) if rows else 0)])
+            range_cells = [
+                [context.eval_cell(col_addr) for col_addr in row[:n_cols]]
+                for row in rows[:n_rows]]
             context.ranges[addr].value = data = func_xltypes.Array(range_cells)
             return data
 
         value = context.eval_cell(addr)
         context.set_sheet()
         return value
+
+
+def _extent(used_flags):
+    """How many leading rows (columns) of a range to evaluate: everything up
+    to the last used one, and ranges of up to MAX_EMPTY rows (columns) whole.
+    """
+    last_used = max(
+        (idx for idx, flag in enumerate(used_flags) if flag), default=-1)
+    return min(len(used_flags), max(last_used + 1, MAX_EMPTY))
 
 
 class OperatorNode(ASTNode):
